@@ -78,6 +78,47 @@ def io_only(F, fn, memo):
     return ok
 
 
+def zero_len_filtered(b):
+    """next_record tests the length field against 0 before decoding, and the zero arm does not reach decode_body"""
+    from ..mirutil import switch_on
+    from ..facts import op_const
+    dec = [c for c in b.calls() if c.name.endswith("::decode_body")]
+    allocs = [c for c in b.calls() if c.name.startswith("alloc::vec::from_elem")]
+    if not dec or not allocs:
+        return False
+    size_l = None
+    for a in allocs[0].args:
+        l = op_local(a)
+        if l is not None and b.local_ty(l) == "usize":
+            size_l = l
+    if size_l is None:
+        return False
+    root = value_root(b, size_l)
+    for bi in range(len(b.blocks)):
+        sw = switch_on(b, bi)
+        if not sw or not all(b.dominates(bi, d.bb) for d in dec):
+            continue
+        l, neg, arms, other = sw
+        sd = b.single_def(l)
+        if not sd or sd[2] != "assign" or sd[3][2][0] != "bin" or sd[3][2][1] not in ("Eq", "Ne"):
+            continue
+        rv = sd[3][2]
+        ops = [rv[2], rv[3]]
+        has_zero = any(op_const(o) and op_const(o).get("v") == 0 for o in ops)
+        has_len = any(op_local(o) is not None and value_root(b, op_local(o)) == root for o in ops)
+        if not (has_zero and has_len):
+            continue
+        t_false = [tb for v, tb in arms if v == 0]
+        t_false = t_false[0] if t_false else None
+        t_true = other
+        if neg:
+            t_true, t_false = t_false, t_true
+        zero_arm = t_true if rv[1] == "Eq" else t_false
+        if zero_arm is not None and all(d.bb not in b.reachable([zero_arm]) for d in dec):
+            return True
+    return False
+
+
 def run(ctx):
     F = ctx.facts
     ctx.rule("C17.1", "error exits of WalReader::next_record are I/O errors only; every tail defect ends the log")
@@ -95,6 +136,11 @@ def run(ctx):
             msg = "a malformed tail (here: %s) makes open fail instead of ending the log" % what
         else:
             ok = what.startswith(("std::io", "std::fs")) or io_only(F, what, memo)
+            if not ok and what.endswith("::decode_body"):
+                # accepted idiom: zero-length records (the only CRC-valid frame a torn / zero-filled tail can contain) are
+                # turned into end-of-log before the body is decoded; a CRC-valid non-empty record that does not decode is a
+                # completely written record of an unknown kind, not a tail defect.
+                ok = zero_len_filtered(b)
             key = "next_record:propagates(%s)" % what.split("::")[-1]
             msg = "an undecodable but CRC-valid tail record (e.g. zero-filled space: len=0, crc=0) propagates `%s`'s error and open fails" % what.split("::")[-1]
         ctx.oblige(ok, "C17.1", key, msg, loc, sample={"exit": kind, "what": what, "loc": loc})
